@@ -278,7 +278,7 @@ func C13(r *core.Run) {
 	dialAddrs := map[string]int{}
 	statusMix := map[string]int{}
 	seen := map[string]bool{}
-	connected, parseErr, noDial, reached, infoShim := 0, 0, 0, 0, 0
+	connected, parseErr, noDial, reached, infoShim, blind := 0, 0, 0, 0, 0, 0
 	samples := map[string]int{}
 	for _, ln := range lines {
 		if shimAddHits(hits, ln) {
@@ -312,6 +312,9 @@ func C13(r *core.Run) {
 			}
 			if len(res.Dials) == 0 {
 				noDial++
+				if res.Connected {
+					blind++
+				}
 			}
 			if res.ParseErr {
 				parseErr++
@@ -363,6 +366,9 @@ func C13(r *core.Run) {
 		if !seen[c.ID] {
 			r.Inconclusive("no result for case " + c.ID + " (worker died?)")
 		}
+	}
+	if blind > 0 {
+		r.Broken(fmt.Sprintf("%d opens reached the backend although the dial observer saw no dial: the tree under test no longer dials through websocket.DefaultDialer, the observation point of this check is blind", blind))
 	}
 	r.Set("urls_tried", len(entries))
 	r.Set("corpus_entries", len(corpus))
